@@ -1,5 +1,7 @@
-(* GraphIOLabels.v -- cnfgen's own step after the networkx gml/dot readers: sort the node labels,
-   relabel 1..n, from_networkx.  Decimal strings (dot) sort lexicographically: defect D9. *)
+(* GraphIOLabels.v -- cnfgen's own step after the networkx gml/dot readers: (dot: turn the labels into integers
+   when they all are integers,) sort the node labels, relabel 1..n, from_networkx.
+   Current code: identity for every size (dot_labels_identity).  As found, decimal strings were sorted
+   lexicographically: defect D9 (dot_labels_refuted, dot_labels_partial on the *_as_found functions). *)
 From Coq Require Import ZArith List Bool Lia ZifyBool Ascii.
 From Cnfgen Require Import GText GraphIO GTextFacts GraphIOFacts GraphIOMatrix GraphIODimacs.
 Import ListNotations.
@@ -55,7 +57,41 @@ Proof.
   - intros u Hu. rewrite sort_zseq, index_zseq by lia. f_equal. lia.
 Qed.
 
-(* ---------- dot: decimal strings ---------- *)
+(* ---------- dot, current code: every label is an integer, sorted as numbers, every size ---------- *)
+Lemma filter_all_true {A} (p : A -> bool) : forall l, (forall x, In x l -> p x = true) -> filter p l = l.
+Proof.
+  induction l as [|x t IH]; intros H; [reflexivity|]. cbn [filter]. rewrite (H x (or_introl eq_refl)). f_equal.
+  apply IH. intros y Hy. apply H. now right.
+Qed.
+Lemma nodup_zseq : forall len a, gio_nodup_Z (zseq a len) = zseq a len.
+Proof.
+  induction len as [|len IH]; intros a; [reflexivity|]. rewrite zseq_S. cbn [gio_nodup_Z]. rewrite IH. f_equal.
+  apply filter_all_true. intros y Hy. apply zseq_In in Hy. lia.
+Qed.
+
+Lemma combine_fst_snd {A B} (l : list (A * B)) : combine (map fst l) (map snd l) = l.
+Proof. induction l as [|[a b] t IH]; [reflexivity|]. cbn [map combine fst snd]. now rewrite IH. Qed.
+
+Theorem dot_labels_identity G : gio_wf G -> io_kind G <> GioBipartite -> gio_dot_roundtrip G = Some (GOk G).
+Proof.
+  intros Hwf HK. unfold gio_dot_roundtrip, gio_dot_normalize, gio_dot_nodes, gio_dot_edges. pose proof Hwf as (Hn & _).
+  rewrite ints_print. rewrite !map_map. cbn [fst snd].
+  rewrite <- (map_map fst gt_print_Z), <- (map_map snd gt_print_Z), !ints_print, combine_fst_snd.
+  rewrite range1_zseq, nodup_zseq.
+  rewrite <- (map_id (io_edges G)) at 1.
+  replace (map (fun x => x) (io_edges G)) with (map (fun e => ((fun u : Z => u) (fst e), (fun u : Z => u) (snd e))) (io_edges G))
+    by (apply map_ext; intros [a b]; reflexivity).
+  apply (from_nx_identity Z.ltb Z.eqb (fun u => u)); auto.
+  - unfold zseq. rewrite map_length, seq_length. lia.
+  - intros u Hu. rewrite sort_zseq, index_zseq by lia. f_equal. lia.
+Qed.
+
+(* a label that is not an integer: nothing is relabelled, the current code and the code as found agree *)
+Lemma dot_normalize_non_numeric k name nodes edges : gt_ints nodes = None ->
+  gio_dot_normalize k name nodes edges = gio_dot_normalize_as_found k name nodes edges.
+Proof. intros H. unfold gio_dot_normalize. now rewrite H. Qed.
+
+(* ---------- dot as found (D9): decimal strings ---------- *)
 Definition g12 : iograph := mkIOG GioSimple [] 12 0 [(2, 10)].
 
 Lemma g12_wf : gio_wf g12.
@@ -66,10 +102,10 @@ Proof.
 Qed.
 
 (* edge (2,10) of a 12-vertex graph comes back as (2,5) *)
-Lemma dot_g12 : gio_dot_roundtrip g12 = Some (GOk (mkIOG GioSimple [] 12 0 [(2, 5)])).
+Lemma dot_g12 : gio_dot_roundtrip_as_found g12 = Some (GOk (mkIOG GioSimple [] 12 0 [(2, 5)])).
 Proof. vm_compute. reflexivity. Qed.
 
-Theorem dot_labels_refuted : exists G, gio_wf G /\ io_kind G = GioSimple /\ gio_dot_roundtrip G <> Some (GOk G).
+Theorem dot_labels_refuted : exists G, gio_wf G /\ io_kind G = GioSimple /\ gio_dot_roundtrip_as_found G <> Some (GOk G).
 Proof. exists g12. split; [exact g12_wf|]. split; [reflexivity|]. rewrite dot_g12. discriminate. Qed.
 
 Lemma dot_index_small n u : 0 <= n <= 9 -> 1 <= u <= n ->
@@ -82,10 +118,14 @@ Proof.
 Qed.
 
 (* up to nine vertices the labels are single digits and the dot round trip is the identity *)
-Theorem dot_labels_partial G : gio_wf G -> io_kind G <> GioBipartite -> io_n G <= 9 -> gio_dot_roundtrip G = Some (GOk G).
+Theorem dot_labels_partial G : gio_wf G -> io_kind G <> GioBipartite -> io_n G <= 9 -> gio_dot_roundtrip_as_found G = Some (GOk G).
 Proof.
-  intros Hwf HK H9. unfold gio_dot_roundtrip, gio_dot_edges. pose proof Hwf as (Hn & _).
+  intros Hwf HK H9. unfold gio_dot_roundtrip_as_found, gio_dot_normalize_as_found, gio_dot_edges. pose proof Hwf as (Hn & _).
   apply (from_nx_identity gt_str_ltb gt_str_eqb gt_print_Z); auto.
   - unfold gio_dot_nodes. rewrite map_length, range1_length. lia.
   - intros u Hu. apply dot_index_small; lia.
 Qed.
+
+(* the same 12-vertex graph under the current code *)
+Lemma dot_g12_now : gio_dot_roundtrip g12 = Some (GOk g12).
+Proof. vm_compute. reflexivity. Qed.
